@@ -3,15 +3,15 @@ CONSTANTS
   Nodes = {1, 2, 3, 4}
   InitPower <- P2120
   Accounts = {"a", "b"}
-  Bodies <- BodiesG
-  SigLists <- ListsG
+  Bodies <- BodiesQ
+  SigLists <- AllLists3
   Replicas = {1, 2}
-  MaxTx = 2
-  MaxBlocks = 2
+  MaxTx = 1
+  MaxBlocks = 1
   DedupSigners = TRUE
   DirectOpen = FALSE
   QueryOpen = FALSE
-  TallyOnly = FALSE
+  TallyOnly = TRUE
 VIEW view
 CONSTRAINT Viable
 INVARIANTS TypeOK CountedOnce UniformApplication
